@@ -250,20 +250,208 @@ def r4_gosub_pairing(ctx, rule="C05.R4"):
     MUTATING = ("push", "pop", "insert", "remove", "clear", "truncate", "drain", "swap_remove", "retain", "append")
     per_arm = {v: [m for m in ms if m in MUTATING] for v, ms in per_arm.items()}
     per_arm = {v: ms for v, ms in per_arm.items() if ms}
-    others = {v: m for v, m in per_arm.items() if v not in ("GoSub", "Return")}
-    ctx.decide(not others, rule, rule + ":no-other-arm", one.loc, "no other arm touches the stack",
-               "arms %s also touch go_sub_address_stack" % sorted(others))
-    outside = sorted(f for f in users if f != one.id and not f.endswith("::new"))
+    # Another arm may only *discard the addresses of a call that has ended*: a truncate to the depth
+    # that PushRet recorded (RETURN must never see a caller's or an ended call's address).  Anything
+    # else in another arm takes or adds an address behind GOSUB / RETURN's back.
+    others = {}
+    for v, ms in per_arm.items():
+        if v in ("GoSub", "Return"):
+            continue
+        if v == "PopRet" and ms == ["truncate"] and _truncates_to_recorded_depth(prog, one, regions, "go_sub_address_stack"):
+            continue
+        others[v] = ms
+    ctx.decide(not others, rule, rule + ":no-other-arm", one.loc,
+               "no other arm takes or adds an address (PopRet may cut back to the depth PushRet recorded)",
+               "arms %s also change go_sub_address_stack" % sorted(others))
+    # outside interpret_one: reading the depth is free; a function that changes the stack must be a
+    # helper of the GoSub / Return arms (its effect is then part of the arm's effect checked above)
+    outside = []
+    for fid in sorted(users):
+        if fid == one.id or fid.endswith("::new"):
+            continue
+        f = prog.fns.get(fid)
+        ms = [m for m in _methods_on_field(f, "go_sub_address_stack") if m in MUTATING] if f is not None else ["?"]
+        if not ms and f is not None and not _assigns_field(f, "go_sub_address_stack"):
+            continue
+        callers = _call_sites_of(prog, fid)
+        ok_arms = set(regions.get("GoSub", ())) | set(regions.get("Return", ()))
+        if callers and all(cf == one.id and cb in ok_arms for cf, cb in callers):
+            continue
+        outside.append(fid)
     ctx.decide(not outside, rule, rule + ":owner", one.loc,
-               "only interpret_one and the constructor touch go_sub_address_stack",
-               "go_sub_address_stack is also touched by %s" % outside)
+               "outside the GoSub / Return arms (and their helpers) go_sub_address_stack is only read",
+               "go_sub_address_stack is also changed by %s" % outside)
+    # GOSUB / RETURN pair up inside one procedure call ("the most recent GOSUB not yet returned from"
+    # cannot be one of a caller, or of a call that has ended): PopRet cuts the stack back to the depth
+    # PushRet recorded, and the pop of RETURN is guarded by a comparison of the stack's length
+    ctx.decide(_truncates_to_recorded_depth(prog, one, regions, "go_sub_address_stack"),
+               rule, rule + ":scoped:PopRet-discards-ended-call", one.loc,
+               "PopRet truncates go_sub_address_stack to the depth PushRet recorded",
+               "PopRet does not cut go_sub_address_stack back to the depth recorded by PushRet: a GOSUB that "
+               "a SUB / FUNCTION leaves pending is taken by a later RETURN of its caller, which then jumps "
+               "into the body of a call that has ended")
+    guarded = _pop_is_guarded_by_depth(prog, one, regions.get("Return", ()), "go_sub_address_stack",
+                                       "return_address_stack")
+    ctx.decide(guarded, rule, rule + ":scoped:Return-own-call-only", one.loc,
+               "the pop of RETURN is guarded by a comparison of the stack length in a function that reads "
+               "return_address_stack",
+               "the Return arm pops go_sub_address_stack without comparing its length with the depth recorded "
+               "for the running call: RETURN inside a SUB / FUNCTION takes an address of its caller")
     # empty case -> ReturnWithoutGoSub
     aggs = [s["r"]["variant"] for _b, s in mir.region_aggregates(one.body, regions.get("Return", ()))
             if s["r"].get("adt") == RE]
     ctx.decide(aggs == ["ReturnWithoutGoSub"], rule, rule + ":Return:empty-is-error-3", one.loc,
                "RETURN with an empty stack raises ReturnWithoutGoSub",
                "Return arm constructs %s" % aggs)
-    ctx.require(rule, 5)
+    ctx.require(rule, 7)
+
+
+def _methods_on_field(fn, field):
+    out = []
+    for body in common.all_bodies(fn):
+        pv = mir.Prov(body)
+        for b, t in body.calls():
+            if not t["args"]:
+                continue
+            o = mir.strip_refs(pv.of_operand(t["args"][0]))
+            if o[0] == "field" and o[2] == field:
+                out.append(mir.callee_path(t).split("::")[-1])
+    return out
+
+
+def _assigns_field(fn, field):
+    for body in common.all_bodies(fn):
+        if field in common.field_writes(body):
+            return True
+    return False
+
+
+def _call_sites_of(prog, fid):
+    out = []
+    for g in prog.fns.values():
+        if g.body is None:
+            continue
+        for b, t in g.body.calls():
+            if (t.get("res") or mir.callee_of(t)) == fid or mir.callee_of(t) == fid:
+                out.append((g.id, b))
+    return out
+
+
+def _truncates_to_recorded_depth(prog, one, regions, field):
+    """In the PopRet arm `field.truncate(n)`: n is a component of the entry popped from
+    return_address_stack, and the PushRet arm fills that component with `field.len()`."""
+    pv = mir.Prov(one.body)
+    idx = None
+    for b, t in mir.region_calls(one.body, regions.get("PopRet", ())):
+        if mir.callee_path(t).split("::")[-1] != "truncate" or len(t["args"]) < 2:
+            continue
+        o = mir.strip_refs(pv.of_operand(t["args"][0]))
+        if not (o[0] == "field" and o[2] == field):
+            continue
+        n = mir.strip_refs(pv.of_operand(t["args"][1]))
+        # a tuple component of the popped entry
+        if n[0] == "field" and mir.origin_mentions(n[1], lambda x: x[0] == "field" and len(x) > 2
+                                                    and x[2] == "return_address_stack"):
+            try:
+                idx = int(n[2])
+            except (TypeError, ValueError):
+                return False
+        else:
+            return False
+    if idx is None:
+        return False
+    # PushRet: the tuple pushed on return_address_stack has field.len() at that index
+    for b, t in mir.region_calls(one.body, regions.get("PushRet", ())):
+        if mir.callee_path(t).split("::")[-1] != "push" or len(t["args"]) < 2:
+            continue
+        o = mir.strip_refs(pv.of_operand(t["args"][0]))
+        if not (o[0] == "field" and o[2] == "return_address_stack"):
+            continue
+        v = mir.strip_refs(pv.of_operand(t["args"][1]))
+        if v[0] == "agg" and idx < len(v[3]):
+            c = mir.strip_refs(v[3][idx])
+            if c[0] == "call" and c[1].split("::")[-1] == "len" and c[2]:
+                r = mir.strip_refs(c[2][0])
+                return r[0] == "field" and r[2] == field
+    return False
+
+
+def _pop_is_guarded_by_depth(prog, one, region, field, depth_holder):
+    """The call that pops `field` (in the arm, or in a same-file helper the arm calls) is dominated by a
+    branch on a comparison one side of which is `field.len()`, in a function that reads `depth_holder`."""
+    cands = [(one, set(region))]
+    for b, t in mir.region_calls(one.body, region):
+        g = prog.fns.get(t.get("res") or mir.callee_of(t))
+        if g is not None and g.file == one.file and g.id != one.id and g.body is not None:
+            cands.append((g, None))
+    for f, reg in cands:
+        body = f.body
+        pv = mir.Prov(body)
+        pops = []
+        for b, t in body.calls():
+            if reg is not None and b not in reg:
+                continue
+            if mir.callee_path(t).split("::")[-1] in ("pop", "pop_back", "pop_front") and t["args"]:
+                o = mir.strip_refs(pv.of_operand(t["args"][0]))
+                if o[0] == "field" and o[2] == field:
+                    pops.append(b)
+        if not pops:
+            continue
+        reads_holder = depth_holder in _fields_mentioned(body)
+        ok_all = True
+        for pb in pops:
+            ok = False
+            for sb in range(body.nblocks):
+                t = body.term(sb)
+                if t["k"] != "switch" or not body.dominates(sb, pb) or sb == pb:
+                    continue
+                p = mir.op_place(t["o"])
+                if p is None:
+                    continue
+                o = pv.of_place(p)
+                if o[0] == "bin" and o[1] in ("Gt", "Lt", "Ge", "Le") and any(_is_len_of(x, field) for x in (o[2], o[3])):
+                    ok = True
+            ok_all = ok_all and ok
+        return ok_all and reads_holder
+    return False
+
+
+def _is_len_of(o, field):
+    o = mir.strip_refs(o)
+    if o[0] == "call" and o[1].split("::")[-1] == "len" and o[2]:
+        r = mir.strip_refs(o[2][0])
+        return r[0] == "field" and r[2] == field
+    return False
+
+
+def _fields_mentioned(body):
+    out = set()
+    for b, blk in enumerate(body.blocks):
+        if blk.get("c"):
+            continue
+        places = []
+        for st in blk["s"]:
+            if st["k"] == "assign":
+                places.append(st["p"])
+                r = st["r"]
+                if "p" in r:
+                    places.append(r["p"])
+                for kk in ("o", "a", "b"):
+                    if kk in r and isinstance(r[kk], dict):
+                        q = mir.op_place(r[kk])
+                        if q:
+                            places.append(q)
+        t = blk["t"]
+        if t["k"] == "call":
+            for a in t["args"]:
+                q = mir.op_place(a)
+                if q:
+                    places.append(q)
+        for pl in places:
+            for e in pl[1]:
+                if isinstance(e, dict) and e.get("n"):
+                    out.add(e["n"])
+    return out
 
 
 def _touches_field(prog, fn, region, field, also=(), depth=2):
@@ -583,6 +771,104 @@ def r9_every_emitting_statement_is_marked(ctx, rule="C05.R9"):
     ctx.require(rule, 20)
 
 
+class _WhileHandling:
+    """TagFlow engine that assumes `last_error_address` holds an address wherever it is looked at."""
+
+    def __init__(self, prog, file):
+        from .. import tagflow
+        outer = self
+        self.hits = []
+        self.looked = []
+        self._pv = {}
+
+        class Eng(tagflow.Engine):
+            def do_call(eng, fn, body, env, t):
+                path = mir.callee_path(t)
+                last = path.split("::")[-1]
+                if last == "push_error_handler_context":
+                    outer.hits.append((fn.path, t.get("ln")))
+                if last in ("is_some", "is_none") and t["args"]:
+                    o = mir.strip_refs(outer.pv(body).of_operand(t["args"][0]))
+                    if o[0] == "field" and o[2] == "last_error_address":
+                        outer.looked.append((fn.path, t.get("ln")))
+                        return [tagflow.K(1 if last == "is_some" else 0)]
+                return super().do_call(fn, body, env, t)
+
+            def do_switch(eng, fn, body, env, t):
+                p = mir.op_place(t["o"])
+                if p is not None:
+                    o = outer.pv(body).of_place(p)
+                    if o[0] == "discr":
+                        base = mir.strip_refs(o[1])
+                        if base[0] == "field" and base[2] == "last_error_address":
+                            outer.looked.append((fn.path, None))
+                            for val, tgt in t["ts"]:
+                                if val == 1:
+                                    return [(tgt, env)]
+                            return [(t["else"], env)]
+                return super().do_switch(fn, body, env, t)
+
+        self.eng = Eng(prog, follow=lambda f: f.file == file and f.name != "interpret_one")
+
+    def pv(self, body):
+        k = id(body)
+        if k not in self._pv:
+            self._pv[k] = mir.Prov(body)
+        return self._pv[k]
+
+
+def r10_no_handler_reentry(ctx, rule="C05.R10"):
+    """An error raised while a handler is running (after the transfer to the handler, before RESUME
+    clears `last_error_address`) must end the program: entering the handler again would overwrite the
+    address RESUME refers to and, when the handler itself fails, never terminate.  Decided by walking
+    the error branch of the fetch-execute loop (and the private helpers it calls) under the assumption
+    that `last_error_address` is set: the call that enters a handler must be unreachable."""
+    prog = ctx.prog
+    interp = ctx.anchor_method("Interpreter", "interpret")
+    body = interp.body
+    pv = mir.Prov(body)
+    call_b = [b for b, t in body.calls() if mir.callee_path(t).split("::")[-1] == "interpret_one"]
+    if len(call_b) != 1:
+        raise CheckError("interpret: %d calls of interpret_one" % len(call_b))
+    err_tgt = None
+    for b in range(body.nblocks):
+        t = body.term(b)
+        if t["k"] != "switch" or body.is_cleanup(b):
+            continue
+        p = mir.op_place(t["o"])
+        if p is None:
+            continue
+        o = pv.of_place(p)
+        if o[0] == "discr":
+            base = mir.strip_refs(o[1])
+            if base[0] == "call" and base[3] == call_b[0]:
+                hit = [tgt for val, tgt in t["ts"] if val == 1]
+                err_tgt = hit[0] if hit else t["else"]
+    if err_tgt is None:
+        raise CheckError("interpret: the result of interpret_one is not matched")
+    W = _WhileHandling(prog, interp.file)
+    W.eng.run(interp, body, {}, start=err_tgt)
+    # the walker must be able to see a handler entry at all: without the assumption it is reached
+    from .. import tagflow
+    plain_hits = []
+
+    class Plain(tagflow.Engine):
+        def do_call(eng, fn, b2, env, t):
+            if mir.callee_path(t).split("::")[-1] == "push_error_handler_context":
+                plain_hits.append(fn.path)
+            return super().do_call(fn, b2, env, t)
+    Plain(prog, follow=lambda f: f.file == interp.file and f.name != "interpret_one").run(interp, body, {}, start=err_tgt)
+    if not plain_hits:
+        raise CheckError("the error branch of interpret never reaches push_error_handler_context (anchor lost)")
+    ctx.decide(not W.hits, rule, rule + ":error-in-handler-is-fatal", interp.loc,
+               "with last_error_address set, the error branch cannot enter a handler (%d reads of the field steer it)"
+               % len(W.looked),
+               "the error branch enters the handler again (%s) although an error is already being handled "
+               "(last_error_address set, %d reads of it on the way): a failing handler runs forever and "
+               "RESUME loses the first error's address" % (sorted(set(W.hits))[:2], len(W.looked)))
+    ctx.require(rule, 1)
+
+
 def run(ctx):
     common.install(ctx)
     r1_error_codes(ctx)
@@ -595,3 +881,4 @@ def run(ctx):
     from . import labels
     labels.r_label_tables(ctx, "C05.R8")
     r9_every_emitting_statement_is_marked(ctx)
+    r10_no_handler_reentry(ctx)
